@@ -621,6 +621,98 @@ out:
 }
 
 /* ------------------------------------------------------------------ */
+/* scripted peer asks an endpoint that has BR_OPT_NO_RENEGOTIATION for a renegotiation:
+   the endpoint must answer with a no_renegotiation warning and carry on */
+
+static void
+decline_case(long long seed, long idx)
+{
+	sess s;
+	vf_rng r;
+	int rx_role = (int)(idx & 1);       /* 0: client receives HelloRequest; 1: server receives ClientHello */
+	int dir_in = rx_role == 0 ? 1 : 0, dir_out = 1 - dir_in;
+	tp_ep *RX;
+	tp_fifo *fout;
+	rm_cipher cs;
+	rm_forge_opts fo;
+	unsigned char msg[2100], rec[2300], data[24];
+	size_t ml, rl, fed = 0, i, rx0;
+	int guard = 0, a0;
+	char what[300];
+	vf_rng_init(&r, (uint64_t)seed, (uint64_t)idx * 3 + 6);
+	if (!sess_start(&s, &r, idx / 2, TP_CHUNK_WHOLE, rx_role == 0 ? BR_OPT_NO_RENEGOTIATION : 0, rx_role == 1 ? BR_OPT_NO_RENEGOTIATION : 0)) {
+		TP_VIOL("setup", "handshake failed"); sess_end(&s); return;
+	}
+	tp_run_data(&s.p, 100, 100, TP_W_SMALL, 100000);
+	tp_settle(&s.p, 100000);
+	RX = rx_role == 0 ? &s.p.c : &s.p.s;
+	fout = rx_role == 0 ? &s.p.c2s : &s.p.s2c;
+	snprintf(tp_case, sizeof tp_case, "%s decline idx=%ld suite=%s ver=%04x receiver=%s layouts=%d/%d", base, idx, s.si->name, s.version,
+		rx_role ? "server" : "client", s.cc.layout, s.sc.layout);
+	if (rx_role == 0) { memset(msg, 0, 4); ml = 4; }
+	else { ml = s.pm.m.rm.last_ch_len; memcpy(msg, s.pm.m.rm.last_ch, ml); }
+	cs = s.pm.m.rm.cs[dir_in];
+	rm_forge_defaults(&fo);
+	rl = rm_seal(&cs, 22, msg, ml, &fo, &r, 1, rec);
+	a0 = s.pm.m.rm.n_alerts[dir_out];
+	rx0 = RX->rx_done;
+	vf_stat("decline_cases", 1);
+	/* feed the request, collect what the endpoint answers (decoded by the independent record layer) */
+	while (guard ++ < 10000 && !tp_ep_closed(RX)) {
+		size_t l; unsigned char *b;
+		if (br_ssl_engine_current_state(RX->eng) & BR_SSL_SENDREC) {
+			size_t got = tp_act_sendrec(RX, fout, 100000);
+			tm_tap(&s.pm.m, dir_out, fout->data + fout->wr - got, got);
+			fout->rd = fout->wr;        /* the scripted peer swallows it */
+			continue;
+		}
+		if (fed >= rl) break;
+		b = br_ssl_engine_recvrec_buf(RX->eng, &l);
+		if (b == NULL) break;
+		if (l > rl - fed) l = rl - fed;
+		memcpy(b, rec + fed, l); fed += l;
+		br_ssl_engine_recvrec_ack(RX->eng, l);
+		tp_calls ++; tp_check(RX, "recvrec_ack");
+	}
+	if (tp_ep_closed(RX)) {
+		snprintf(what, sizeof what, "endpoint with BR_OPT_NO_RENEGOTIATION closed (error %d) when the peer asked for a renegotiation", br_ssl_engine_last_error(RX->eng));
+		TP_VIOL("decline:connection-closed", what);
+		goto out;
+	}
+	if (s.pm.m.rm.n_alerts[dir_out] != a0 + 1 || s.pm.m.rm.alerts[dir_out][a0][0] != 1 || s.pm.m.rm.alerts[dir_out][a0][1] != 100) {
+		snprintf(what, sizeof what, "expected exactly one no_renegotiation warning, saw %d new alert(s)%s", s.pm.m.rm.n_alerts[dir_out] - a0,
+			s.pm.m.rm.failed ? " (and the answer did not decode)" : "");
+		TP_VIOL("decline:no-renegotiation-warning-missing", what);
+		goto out;
+	}
+	/* the stream continues in order: next data record from the scripted peer is delivered */
+	for (i = 0; i < sizeof data; i ++) data[i] = tp_stream_byte(RX->rx_key, RX->rx_done + i);
+	rl = rm_seal(&cs, 23, data, sizeof data, &fo, &r, 1, rec);
+	fed = 0; guard = 0;
+	while (guard ++ < 10000 && !tp_ep_closed(RX)) {
+		size_t l; unsigned char *b;
+		if (br_ssl_engine_recvapp_buf(RX->eng, &l)) { tp_act_read(RX, l); continue; }
+		if (fed >= rl) break;
+		b = br_ssl_engine_recvrec_buf(RX->eng, &l);
+		if (b == NULL) break;
+		if (l > rl - fed) l = rl - fed;
+		memcpy(b, rec + fed, l); fed += l;
+		br_ssl_engine_recvrec_ack(RX->eng, l);
+		tp_calls ++; tp_check(RX, "recvrec_ack");
+	}
+	if (RX->rx_done != rx0 + sizeof data || RX->rx_bad || tp_ep_closed(RX)) {
+		TP_VIOL("decline:stream-broken-after-declined-renegotiation", "data following a declined renegotiation request was not delivered intact");
+		goto out;
+	}
+	/* and the endpoint can still send */
+	if (!tp_ep_ready(RX)) { TP_VIOL("decline:not-ready-after-decline", "endpoint does not accept application data after declining a renegotiation"); goto out; }
+	vf_stat("decline_ok", 1);
+	vf_distinct("decline_cfg", "%d/%04x/%d/l%d%d", s.si->enc, s.version, rx_role, s.cc.layout, s.sc.layout);
+out:
+	sess_end(&s);
+}
+
+/* ------------------------------------------------------------------ */
 /* br_sslio wrapper: the client is driven through br_sslio_*; its callbacks pump the server */
 
 typedef struct {
@@ -798,6 +890,7 @@ main(int argc, char **argv)
 		else if (!strcmp(mode, "alert")) alert_cases(seed, idx, stride);
 		else if (!strcmp(mode, "reneg")) reneg_case(seed, idx);
 		else if (!strcmp(mode, "sslio")) sslio_case(seed, idx);
+		else if (!strcmp(mode, "decline")) decline_case(seed, idx);
 		vf_stat("cases", 1);
 	}
 	vf_stat("monitored_calls", tp_calls);
